@@ -4,6 +4,7 @@ go 1.21
 
 require (
 	github.com/GuanceCloud/platypus v0.0.0
+	github.com/influxdata/influxdb1-client v0.0.0-20220302092344-a9ab5670611c
 	go.uber.org/zap v1.23.0
 )
 
